@@ -31,6 +31,9 @@ structure XGroup where
   lastId : Bytes
   entriesRead : Option Bytes
   pel : List XNack
+  /-- the group's consumers by name, in creation order (XGROUP CREATECONSUMER, or the first
+      XCLAIM that really claims an entry for the name) -/
+  consumers : List Bytes := []
   deriving Repr, DecidableEq, Inhabited
 
 structure XStream where
@@ -142,14 +145,55 @@ def doXadd (ks : Keyspace) (k : Bytes) (maxlen0 : Bool) (id : Bytes) (fv : List 
       else none
     | _ => none
 
+/-- a stream id argument in the strict form `ms-seq`, both parts unsigned 64-bit
+    (t_stream.c streamParseStrictIDOrReply) -/
+def validId (id : Bytes) : Bool :=
+  match splitId id with
+  | some (a, b) => decide (a < 2 ^ 64) && decide (b < 2 ^ 64)
+  | none => false
+
+/-- a non-negative `long long` argument (getLongLongFromObjectOrReply + range check):
+    decimal, at most 2^63-1 -/
+def int63? (b : Bytes) : Option Nat :=
+  match decToNat? b with
+  | some v => if v < 2 ^ 63 then some v else none
+  | none => none
+
+/-- the ENTRIESREAD argument of XGROUP CREATE: a `long long` that is not negative, or -1 =
+    unknown (t_stream.c xgroupCommand: "value for ENTRIESREAD must be positive or -1") -/
+def validEntriesRead (n : Bytes) : Bool := n == b!"-1" || (int63? n).isSome
+
+def isZeroId (id : Bytes) : Bool := splitId id == some (0, 0)
+
+/-- `XSETID key id [ENTRIESADDED n MAXDELETEDID id]` with the checks of t_stream.c
+    xsetidCommand (7.0): strict ids; `ENTRIESADDED` a non-negative long long; the id not below
+    MAXDELETEDID ("smaller than the provided max_deleted_entry_id"); on a stream that HAS
+    entries the id not below the top entry ("smaller than the target stream top item") and
+    ENTRIESADDED not below the length ("smaller than the target stream length"). A 0-0
+    MAXDELETEDID leaves the field as it is (0-0 on a stream that never had one). -/
 def doXsetid (ks : Keyspace) (k : Bytes) (rest : List Arg) : Option Keyspace :=
-  match rest, get ks k with
-  | [.b id], some (.stream s, t) => some (put ks k (.stream { s with lastId := id }) t)
-  | [.b id, .b ea, .b n, .b md, .b mid], some (.stream s, t) =>
-    if ea = b!"ENTRIESADDED" ∧ md = b!"MAXDELETEDID" then
-      some (put ks k (.stream { s with lastId := id, entriesAdded := some n, maxDeleted := some mid }) t)
-    else none
-  | _, _ => none
+  match get ks k with
+  | some (.stream s, t) =>
+    let topOk (id : Bytes) : Bool :=
+      match s.entries.getLast? with
+      | some e => !idLt id e.id
+      | none => true
+    match rest with
+    | [.b id] =>
+      if validId id && topOk id then some (put ks k (.stream { s with lastId := id }) t) else none
+    | [.b id, .b ea, .b n, .b md, .b mid] =>
+      if lower ea = b!"entriesadded" ∧ lower md = b!"maxdeletedid" then
+        match int63? n with
+        | none => none
+        | some v =>
+          if validId id && validId mid && !idLt id mid && topOk id &&
+              (s.entries.isEmpty || decide (s.entries.length ≤ v)) then
+            let md' : Bytes := if isZeroId mid then s.maxDeleted.getD mid else mid
+            some (put ks k (.stream { s with lastId := id, entriesAdded := some n, maxDeleted := some md' }) t)
+          else none
+      else none
+    | _ => none
+  | _ => none
 
 /-- one command; `none` = the server replies with an error -/
 def applyCmd (ks : Keyspace) (c : Cmd) : Option Keyspace :=
@@ -200,33 +244,81 @@ def applyCmd (ks : Keyspace) (c : Cmd) : Option Keyspace :=
       else if name = b!"xsetid" then doXsetid ks k rest
       else none
 
-/-- XGROUP CREATE key group id [ENTRIESREAD n] and XCLAIM … JUSTID FORCE carry
-    the key in the second / first position -/
+/-- the stream commands that carry the key in the second / first position, as t_stream.c
+    defines them (`none` = an error reply, or a form outside this oracle):
+
+    * `XGROUP CREATE key group id [ENTRIESREAD n]` — strict id; BUSYGROUP for an existing name;
+      ENTRIESREAD a long long ≥ -1.
+    * `XGROUP CREATECONSUMER key group consumer` (6.2) — NOGROUP for an unknown group; adds the
+      consumer unless it exists.
+    * `XCLAIM key group consumer 0 id TIME ms RETRYCOUNT n JUSTID FORCE [LASTID id]` — the one-id
+      form with min-idle-time 0 (other forms: outside the oracle); the option words are inspected;
+      TIME / RETRYCOUNT non-negative long longs. xclaimCommand: "Item must exist for us to
+      transfer it to another consumer" and, for FORCE, a pending entry is created only "if at
+      least the entry exists in the Stream": for an id that is NOT an entry of the stream NO
+      pending entry is created (all versions 5-8), and an existing pending entry of that id is
+      dropped (7.0+; 5/6 leave it). Otherwise the pending entry of that id is (re)created with
+      the given owner, delivery time and count (JUSTID: the count is not incremented), and the
+      consumer is created if the group does not know it. LASTID raises the group's
+      last-delivered id. A TIME above the server's clock is stored as that clock — the oracle has
+      no clock: it stores the argument, exact for delivery times that are not in the target's
+      future (an assumption of the theorems, see checks/p/C03.py). -/
 def applyXCmd (ks : Keyspace) (c : Cmd) : Option Keyspace :=
   let name := lower c.name
   if name = b!"xgroup" then
     match c.args with
-    | .b cr :: .b k :: .b g :: .b id :: opt =>
-      if cr ≠ b!"CREATE" then none else
+    | [.b cc, .b k, .b g, .b cons] =>
+      if lower cc = b!"createconsumer" then
+        match get ks k with
+        | some (.stream s, t) =>
+          if s.groups.any (fun x => x.name == g) then
+            some (put ks k (.stream { s with groups := s.groups.map (fun x =>
+              if x.name == g then
+                { x with consumers := if x.consumers.contains cons then x.consumers else x.consumers ++ [cons] }
+              else x) }) t)
+          else none
+        | _ => none
+      else if lower cc = b!"create" then
+        match get ks k with
+        | some (.stream s, t) =>
+          if s.groups.any (fun x => x.name == g) || !validId cons then none else
+          some (put ks k (.stream { s with groups := s.groups ++ [⟨g, cons, none, [], []⟩] }) t)
+        | _ => none
+      else none
+    | [.b cr, .b k, .b g, .b id, .b e, .b n] =>
+      if lower cr ≠ b!"create" ∨ lower e ≠ b!"entriesread" then none else
       match get ks k with
       | some (.stream s, t) =>
-        if s.groups.any (fun x => x.name == g) then none else
-        let er := match opt with
-          | [.b e, .b n] => if e = b!"ENTRIESREAD" then some n else none
-          | _ => none
-        some (put ks k (.stream { s with groups := s.groups ++ [⟨g, id, er, []⟩] }) t)
+        if s.groups.any (fun x => x.name == g) || !validId id || !validEntriesRead n then none else
+        some (put ks k (.stream { s with groups := s.groups ++ [⟨g, id, some n, [], []⟩] }) t)
       | _ => none
     | _ => none
   else if name = b!"xclaim" then
     match c.args with
-    | [.b k, .b g, .b cons, .b _, .b id, .b _, .b time, .b _, .b count, .b _, .b _] =>
-      match get ks k with
-      | some (.stream s, t) =>
+    | .b k :: .b g :: .b cons :: .b mi :: .b id :: .b tw :: .b time :: .b rw :: .b count :: .b jw :: .b fw :: opt =>
+      if lower tw ≠ b!"time" ∨ lower rw ≠ b!"retrycount" ∨ lower jw ≠ b!"justid" ∨ lower fw ≠ b!"force" ∨
+          mi ≠ b!"0" ∨ !validId id ∨ (int63? time).isNone ∨ (int63? count).isNone then none else
+      let lastid : Option (Option Bytes) :=
+        match opt with
+        | [] => some none
+        | [.b lw, .b lid] => if lower lw = b!"lastid" ∧ validId lid then some (some lid) else none
+        | _ => none
+      match lastid, get ks k with
+      | some lid, some (.stream s, t) =>
         if s.groups.any (fun x => x.name == g) then
+          let live := s.entries.any (fun e => e.id == id)
           some (put ks k (.stream { s with groups := s.groups.map (fun x =>
-            if x.name == g then { x with pel := (x.pel.filter (fun n => !(n.id == id))) ++ [⟨id, cons, time, count⟩] } else x) }) t)
+            if x.name == g then
+              let x1 : XGroup := match lid with
+                | some l => if idLt x.lastId l then { x with lastId := l } else x
+                | none => x
+              if live then
+                { x1 with pel := (x1.pel.filter (fun n => !(n.id == id))) ++ [⟨id, cons, time, count⟩],
+                          consumers := if x1.consumers.contains cons then x1.consumers else x1.consumers ++ [cons] }
+              else { x1 with pel := x1.pel.filter (fun n => !(n.id == id)) }
+            else x) }) t)
         else none
-      | _ => none
+      | _, _ => none
     | _ => none
   else applyCmd ks c
 
